@@ -7,6 +7,7 @@ import (
 	"net/url"
 	"sort"
 	"strings"
+	"testing/synctest"
 	"time"
 
 	"servitor/verifshim/simexec"
@@ -94,7 +95,7 @@ func (g *keyGen) next() []byte {
 			return []byte(":open " + g.openTarget() + "\r")
 		}
 	}
-	switch t.Weighted(8, 6, 3, 2, 2, 3, 2, 2, 2, 1, 1) {
+	switch t.Weighted(8, 6, 3, 2, 2, 3, 2, 4, 2, 1, 1) {
 	case 0:
 		return []byte{'j'}
 	case 1:
@@ -110,8 +111,8 @@ func (g *keyGen) next() []byte {
 	case 6:
 		return []byte{"opb"[t.Draw(3)]}
 	case 7:
-		d := fmt.Sprintf("%d", 1+t.Draw(4))
-		return []byte(d + string([]byte{'.', '\r', 27, 127}[t.Draw(4)]))
+		d := fmt.Sprintf("%d", 1+t.Draw(3))
+		return []byte(d + string([]byte{'.', '.', '\r', '\r', 27, 127}[t.Draw(6)]))
 	case 8:
 		if t.Chance(1, 3) {
 			return []byte(":feed " + g.feedName() + "\r")
@@ -191,23 +192,69 @@ func scenUI(r *Run, o uiOpts) {
 	u.Subcommand(startCmd, startArg)
 	stepCap := 60000
 	if o.racing {
-		u.StartPoller(30 + t.Draw(120))
+		// a real network: deliveries take milliseconds, so the 25 ms poller gets its turns
+		r.S.LatTable = []time.Duration{0, 0, time.Millisecond, 4 * time.Millisecond, 12 * time.Millisecond, 30 * time.Millisecond, 70 * time.Millisecond, 150 * time.Millisecond}
+		u.StartPoller(40 + t.Draw(160))
+		// Each action is typed in order (the next byte when the previous Update has returned, as a
+		// person types), but actions overlap with each other, with loads, ticks and hook completions.
+		type typing struct {
+			b    []byte
+			pos  int
+			last int
+		}
+		var seqs []*typing
+		advance := func() {
+			for _, q := range seqs {
+				if q.pos < len(q.b) && (q.last < 0 || u.Returned(q.last)) {
+					q.last = u.Key(q.b[q.pos])
+					q.pos++
+				}
+			}
+		}
+		busy := func() bool {
+			for _, q := range seqs {
+				if q.pos < len(q.b) {
+					return true
+				}
+			}
+			return false
+		}
 		for i := 0; i < nActions; i++ {
-			// let a tape-chosen number of events happen, then act while things are in flight
-			for k := t.Weighted(2, 3, 3, 2, 1, 1) * (1 + t.Draw(6)); k > 0 && r.S.Steps() < stepCap; k-- {
-				r.S.Step(50 * time.Millisecond)
+			switch t.Weighted(3, 4, 3) {
+			case 0: // act almost at once, while whatever is going on is still going on
+				for k := t.Draw(10); k > 0 && r.S.Steps() < stepCap; k-- {
+					r.S.Step(50 * time.Millisecond)
+					advance()
+				}
+			case 1: // act when the current loads have just finished (the poller keeps ticking)
+				for k := 0; k < 3000 && r.S.Steps() < stepCap; k++ {
+					r.S.Step(50 * time.Millisecond)
+					advance()
+					synctest.Wait()
+					if !r.S.Busy() && !busy() {
+						break
+					}
+				}
+			default:
+				for k := 10 + t.Draw(200); k > 0 && r.S.Steps() < stepCap; k-- {
+					r.S.Step(50 * time.Millisecond)
+					advance()
+				}
 			}
 			burst := 1 + t.Weighted(5, 2, 1, 1)
 			for b := 0; b < burst; b++ {
 				act := g.next()
 				typed = append(typed, fmt.Sprintf("%q", act))
-				for _, c := range act {
-					u.Key(c)
-				}
+				seqs = append(seqs, &typing{b: act, last: -1})
 			}
+			advance()
 			if t.Chance(1, 6) {
 				u.Resize(12+t.Draw(109), 2+t.Draw(39))
 			}
+		}
+		for busy() && r.S.Steps() < stepCap {
+			r.S.Step(50 * time.Millisecond)
+			advance()
 		}
 		// let it all play out, then stop the poller and require quiescence
 		r.Drive(func() bool { return u.KeysPending() == 0 && u.subDone }, r.S.Now()+20*r.Timeout+time.Minute, stepCap)
